@@ -41,10 +41,14 @@ class Finding:
         }
 
 
+ACTIVE: List["RuleRun"] = []  # rule runs created since the driver last cleared the list (partial results on errors)
+
+
 class RuleRun:
     """Collects what one rule examined. ``ok``/``bad`` record one instance each."""
 
     def __init__(self, prop: str, rule: str, floor: int = 1, what: str = ""):
+        ACTIVE.append(self)
         self.prop = prop
         self.rule = rule
         self.floor = floor
